@@ -1222,18 +1222,20 @@ Section User.
       assert (G : gS (c_phase k) = true) by (rewrite Hp; reflexivity).
       destruct (staged_fresh s i k L Hk G) as [Nd Fr].
       destruct (rx_closed s).
-      + apply (Live_fail_shutdown (upd_q s (S (permits s)) (queue s) (waiters s) (rx_closed s)) i k).
+      + apply (Live_fail_shutdown (upd_q s (S (permits s)) (queue s) (waiters s) true) i k).
         * eapply Live_eq; [..|exact L]; reflexivity.
         * exact Hk.
         * left. exact G.
         * rewrite Hp. reflexivity.
         * congruence.
-      + apply (Live_enqueue s i k); try assumption.
+      + apply (Live_enqueue s i k k _ L Hk).
         * rewrite Hp. reflexivity.
         * congruence.
         * left. exact G.
+        * exact Nd.
+        * exact Fr.
     - (* PAcqClosed *)
-      apply (Live_fail_shutdown s i k); try assumption.
+      apply (Live_fail_shutdown s i k L Hk).
       + left. rewrite Hp. reflexivity.
       + rewrite Hp. reflexivity.
       + congruence.
@@ -1264,3 +1266,189 @@ Section User.
     - injection H as <- _. eapply Live_eq; [..|exact L]; reflexivity.
   Qed.
 End User.
+
+(* ================================================================== what an op does to the
+   phases (model only) *)
+Section Effects.
+  Context {T : Type}.
+  Notation cstate := (@cstate T).
+  Implicit Types s : cstate.
+
+  Definition ph s (i : nat) : option phase := option_map c_phase (nth_error (calls s) i).
+
+  (* every call other than i keeps its phase class; the handles are untouched *)
+  Record Ch (i : nat) s s' : Prop := {
+    ch_handles : handles s' = handles s;
+    ch_len : length (calls s') = length (calls s);
+    ch_other : forall j, j <> i -> nth_error (cls s') j = nth_error (cls s) j }.
+
+  Lemma Ch_refl i s : Ch i s s.
+  Proof. constructor; reflexivity. Qed.
+  Lemma Ch_trans i s1 s2 s3 : Ch i s1 s2 -> Ch i s2 s3 -> Ch i s1 s3.
+  Proof.
+    intros [A B C] [A' B' C']. constructor; [congruence|congruence|].
+    intros j Hj. rewrite C', C by exact Hj. reflexivity.
+  Qed.
+  Lemma Ch_eq i s s' : calls s' = calls s -> handles s' = handles s -> Ch i s s'.
+  Proof. intros E1 E2. constructor; [exact E2|rewrite E1; reflexivity|]. intros. unfold cls. rewrite E1. reflexivity. Qed.
+  Lemma Ch_cls i s s' : cls s' = cls s -> handles s' = handles s -> Ch i s s'.
+  Proof.
+    intros E1 E2. constructor; [exact E2| |intros; rewrite E1; reflexivity].
+    pose proof (f_equal (@length _) E1) as H. unfold cls in H. rewrite !map_length in H. exact H.
+  Qed.
+
+  Lemma nth_error_cls s j : nth_error (cls s) j = option_map pclass (ph s j).
+  Proof. unfold cls, ph. rewrite nth_error_map. destruct (nth_error (calls s) j); reflexivity. Qed.
+
+  Lemma ph_set_phase s i p j :
+    ph (set_phase s i p) j = if Nat.eqb i j then option_map (fun _ => p) (ph s j) else ph s j.
+  Proof.
+    unfold ph. rewrite set_phase_alt. cbn [calls upd_calls]. rewrite nth_error_phase_calls.
+    destruct (Nat.eqb i j); [|reflexivity]. destruct (nth_error (calls s) j); reflexivity.
+  Qed.
+  Lemma Ch_set_phase i s p : Ch i s (set_phase s i p).
+  Proof.
+    constructor.
+    - rewrite set_phase_alt. reflexivity.
+    - rewrite set_phase_alt. cbn [calls upd_calls]. apply phase_calls_length.
+    - intros j Hj. rewrite !nth_error_cls, ph_set_phase.
+      destruct (Nat.eqb i j) eqn:E; [apply Nat.eqb_eq in E; congruence|reflexivity].
+  Qed.
+  Lemma ph_set_phase_same s i p : ph s i <> None -> ph (set_phase s i p) i = Some p.
+  Proof.
+    intro H. rewrite ph_set_phase, Nat.eqb_refl. destruct (ph s i); [reflexivity|congruence].
+  Qed.
+  Lemma ph_eq s s' i : calls s' = calls s -> ph s' i = ph s i.
+  Proof. intro E. unfold ph. rewrite E. reflexivity. Qed.
+
+  Lemma Ch_push_cancel i s id : Ch i s (push_cancel s id).
+  Proof. apply Ch_eq; rewrite push_cancel_alt; reflexivity. Qed.
+
+  Lemma fail_shutdown_eff s i id :
+    ph s i <> None ->
+    fst (fail_shutdown s i id) = CDone OShutdown /\
+    Ch i s (snd (fail_shutdown s i id)) /\ ph (snd (fail_shutdown s i id)) i = Some PDone.
+  Proof.
+    intro H. unfold fail_shutdown. cbn [fst snd]. split; [reflexivity|]. split.
+    - eapply Ch_trans; [|apply Ch_set_phase]. apply Ch_eq; rewrite push_cancel_alt; reflexivity.
+    - apply ph_set_phase_same. rewrite (ph_eq s); [exact H|]. rewrite push_cancel_alt. reflexivity.
+  Qed.
+
+  Lemma poll_slot_eff s i id r s' :
+    ph s i <> None -> poll_slot s i id = (r, s') ->
+    (r = CPending /\ s' = s) \/ ((exists o, r = CDone o) /\ Ch i s s' /\ ph s' i = Some PDone).
+  Proof.
+    intros H. unfold poll_slot.
+    assert (D : Ch i s (set_phase (slot_rx_close s id) i PDone) /\
+                ph (set_phase (slot_rx_close s id) i PDone) i = Some PDone).
+    { split.
+      - eapply Ch_trans; [|apply Ch_set_phase]. apply Ch_eq; reflexivity.
+      - apply ph_set_phase_same. rewrite (ph_eq s); [exact H|reflexivity]. }
+    destruct (sl_val (get_slot s id)).
+    - intros [= <- <-]. right. split; [eexists; reflexivity|exact D].
+    - destruct (sl_tx_gone (get_slot s id)); intros [= <- <-]; [|left; auto].
+      right. split; [eexists; reflexivity|exact D].
+  Qed.
+
+  Lemma enqueue_eff s i c id tc r s' :
+    ph s i <> None -> enqueue s i c id tc = (r, s') ->
+    Ch i s s' /\
+    ((r = CPending /\ ph s' i = Some PAwaiting) \/ ((exists o, r = CDone o) /\ ph s' i = Some PDone)).
+  Proof.
+    intros H. unfold enqueue. set (s1 := upd_q s _ _ _ _).
+    assert (C1 : Ch i s (set_phase s1 i PAwaiting)).
+    { eapply Ch_trans; [|apply Ch_set_phase]. apply Ch_eq; reflexivity. }
+    assert (P1 : ph (set_phase s1 i PAwaiting) i = Some PAwaiting).
+    { apply ph_set_phase_same. rewrite (ph_eq s); [exact H|reflexivity]. }
+    intro E. apply poll_slot_eff in E; [|congruence].
+    destruct E as [[-> ->]|(Ho & C2 & P2)].
+    - split; [exact C1|left; auto].
+    - split; [eapply Ch_trans; eassumption|right; auto].
+  Qed.
+
+  Lemma ph_with_id s i k id j :
+    nth_error (calls s) i = Some k -> ph (with_id s i k id) j = ph s j.
+  Proof.
+    intro Hk. unfold ph, with_id. cbn [calls upd_calls].
+    destruct (Nat.eq_dec i j) as [<-|Hne].
+    - rewrite nth_error_set_nth_same by (apply nth_error_Some; congruence). rewrite Hk. reflexivity.
+    - rewrite nth_error_set_nth_other by exact Hne. reflexivity.
+  Qed.
+  Lemma Ch_with_id i s k id : nth_error (calls s) i = Some k -> Ch i s (with_id s i k id).
+  Proof.
+    intro Hk. constructor; [reflexivity|unfold with_id; cbn [calls upd_calls]; apply set_nth_length|].
+    intros j _. rewrite !nth_error_cls, (ph_with_id s i k id j Hk). reflexivity.
+  Qed.
+
+  Definition pc_eff (p : option phase) (r : cpoll) (p' : option phase) : Prop :=
+    match p with
+    | None => r = CNothing /\ p' = None
+    | Some p0 =>
+      match r with
+      | CNothing => (p0 = PClosing \/ p0 = PDone \/ p0 = PGone) /\ p' = Some p0
+      | CPending => (p0 = PNew \/ p0 = PAcquiring \/ p0 = PAssigned \/ p0 = PAwaiting) /\
+                    (p' = Some PAcquiring \/ p' = Some PAwaiting)
+      | CDone _ => (p0 = PNew \/ p0 = PAssigned \/ p0 = PAcqClosed \/ p0 = PAwaiting) /\
+                   p' = Some PDone
+      end
+    end.
+
+  Lemma poll_call_eff s i r s' :
+    poll_call s i = (r, s') -> Ch i s s' /\ pc_eff (ph s i) r (ph s' i).
+  Proof.
+    unfold poll_call, pc_eff. unfold ph at 2. destruct (nth_error (calls s) i) as [k|] eqn:Hk; cbn [option_map].
+    2:{ intros [= <- <-]. split; [apply Ch_refl|]. split; [reflexivity|]. unfold ph. rewrite Hk. reflexivity. }
+    assert (Hs : ph s i <> None) by (unfold ph; rewrite Hk; discriminate).
+    assert (Hsame : ph s i = Some (c_phase k)) by (unfold ph; rewrite Hk; reflexivity).
+    destruct (c_phase k) eqn:Hp.
+    - (* PNew *)
+      cbn zeta. set (s0 := with_id _ i k (next_id s)). set (s1 := set_slot s0 (next_id s) slot0).
+      assert (C1 : Ch i s s1).
+      { eapply Ch_trans; [apply Ch_eq; reflexivity|].
+        eapply Ch_trans; [apply (Ch_with_id i (upd_misc s _ (handles s) (now s)) k (next_id s)); exact Hk|].
+        apply Ch_eq; reflexivity. }
+      assert (P1 : ph s1 i <> None).
+      { unfold s1. rewrite (ph_eq s0) by reflexivity. unfold s0. rewrite ph_with_id by exact Hk.
+        rewrite (ph_eq s) by reflexivity. exact Hs. }
+      destruct (rx_closed s1).
+      + destruct (fail_shutdown_eff s1 i (next_id s) P1) as (E1 & C2 & P2).
+        destruct (fail_shutdown s1 i (next_id s)) as [r0 s2]. cbn [fst snd] in *. subst r0.
+        intros [= <- <-]. split; [eapply Ch_trans; eassumption|]. split; [left; reflexivity|exact P2].
+      + destruct (permits s1) as [|pm].
+        * intros [= <- <-]. split.
+          -- eapply Ch_trans; [exact C1|]. eapply Ch_trans; [|apply Ch_set_phase]. apply Ch_eq; reflexivity.
+          -- split; [left; reflexivity|left]. apply ph_set_phase_same.
+             rewrite (ph_eq s1) by reflexivity. exact P1.
+        * intro E. apply enqueue_eff in E; [|rewrite (ph_eq s1) by reflexivity; exact P1].
+          destruct E as [C2 [[-> P2]|[[o ->] P2]]].
+          -- split; [eapply Ch_trans; [exact C1|]; eapply Ch_trans; [apply Ch_eq; reflexivity|exact C2]|].
+             split; [left; reflexivity|right; exact P2].
+          -- split; [eapply Ch_trans; [exact C1|]; eapply Ch_trans; [apply Ch_eq; reflexivity|exact C2]|].
+             split; [left; reflexivity|exact P2].
+    - intros [= <- <-]. split; [apply Ch_refl|]. split; [right; left; reflexivity|left; exact Hsame].
+    - (* PAssigned *)
+      destruct (rx_closed s).
+      + set (s0 := upd_q s _ _ _ _).
+        assert (P0 : ph s0 i <> None) by (rewrite (ph_eq s) by reflexivity; exact Hs).
+        destruct (fail_shutdown_eff s0 i (c_id k) P0) as (E1 & C2 & P2).
+        destruct (fail_shutdown s0 i (c_id k)) as [r0 s2]. cbn [fst snd] in *. subst r0.
+        intros [= <- <-]. split; [eapply Ch_trans; [apply Ch_eq; reflexivity|exact C2]|].
+        split; [right; left; reflexivity|exact P2].
+      + intro E. apply enqueue_eff in E; [|exact Hs].
+        destruct E as [C2 [[-> P2]|[[o ->] P2]]].
+        * split; [exact C2|]. split; [right; right; left; reflexivity|right; exact P2].
+        * split; [exact C2|]. split; [right; left; reflexivity|exact P2].
+    - (* PAcqClosed *)
+      destruct (fail_shutdown_eff s i (c_id k) Hs) as (E1 & C2 & P2).
+      destruct (fail_shutdown s i (c_id k)) as [r0 s2]. cbn [fst snd] in *. subst r0.
+      intros [= <- <-]. split; [exact C2|]. split; [right; right; left; reflexivity|exact P2].
+    - (* PAwaiting *)
+      intro E. apply poll_slot_eff in E; [|exact Hs].
+      destruct E as [[-> ->]|([o ->] & C2 & P2)].
+      + split; [apply Ch_refl|]. split; [right; right; right; reflexivity|right; exact Hsame].
+      + split; [exact C2|]. split; [right; right; right; reflexivity|exact P2].
+    - intros [= <- <-]. split; [apply Ch_refl|]. split; [left; reflexivity|exact Hsame].
+    - intros [= <- <-]. split; [apply Ch_refl|]. split; [right; left; reflexivity|exact Hsame].
+    - intros [= <- <-]. split; [apply Ch_refl|]. split; [right; right; reflexivity|exact Hsame].
+  Qed.
+End Effects.
